@@ -152,6 +152,13 @@ func (m *modStream) Take(from int) []*spb.ModifyResponse { return m.take(from) }
 // Close ends the client side of the stream (io.EOF: half-close).
 func (m *modStream) Close(err error) { m.close(err) }
 
+// Got returns the responses accepted so far.
+func (g *getStream) Got() []*spb.GetResponse {
+	g.mu.Lock()
+	defer g.mu.Unlock()
+	return append([]*spb.GetResponse{}, g.got...)
+}
+
 // NewGetStream returns an in-process Get stream whose Send fails after failAfter responses (<0: never).
 func NewGetStream(failAfter int) *getStream {
 	return &getStream{ctx: context.Background(), failAfter: failAfter}
